@@ -12,7 +12,7 @@ pub struct C09 {
 
 impl C09 {
     pub fn new(tier: Tier) -> C09 {
-        C09 { sets: hl_sets(&Bounds { t: tier.pick(5, 6), q: tier.pick(4, 5), words: tier.pick(2, 3), fams: vec![1, 2, 4, 5] }) }
+        C09 { sets: hl_sets(&Bounds { t: tier.pick(5, 6), q: tier.pick(4, 5), words: tier.pick(2, 3), corpus: true, fams: vec![1, 2, 4, 5] }) }
     }
 }
 
@@ -70,7 +70,7 @@ impl Prop for C09 {
             cx.state();
             // public tokenisation of each stored title
             let maps: Vec<(usize, Option<WordMap>)> = recs.iter().map(|r| (r.0, tok_record(l, &r.1).map(|t| word_map(&t)))).collect();
-            for q in &set.queries {
+            for q in set.queries_for(&title).iter() {
                 cx.eval();
                 let hits = match cx.search(&mut st, q) {
                     Ok(h) => h,
